@@ -69,6 +69,38 @@ func c02(c *ctx) {
 		cs.entries = entriesFor(r, g, 22, false, 0, alpha)
 		cases = append(cases, cs)
 	}
+	// ladders of mutually recursive rules: the first-character set of every rung is that of the rung above plus one
+	// letter, and every rung is met by the -switch analysis while the rung above is still being analysed — the set of
+	// the lowest rung is complete only after as many passes as there are rungs (the analysis repeats until it settles,
+	// F26; seeded C02-K capped the number of passes)
+	for _, top := range []int{5, 9, 13} {
+		letters := []rune("bcdfghijklmoprstu")
+		L, R := gram.Lit, gram.Ref
+		rn := func(i int) string { return fmt.Sprintf("L%d", i) }
+		g := &gram.Grammar{Rules: []*gram.Rule{
+			{Name: "R0", E: gram.Seq(R(rn(top)), L("!"), R("Tail"), gram.Un(gram.KNot, gram.Dot()))},
+			{Name: "Tail", E: gram.Alt(gram.Seq(R(rn(0)), L("q")), gram.Seq(L("n"), L("y")), L("w"), L("v"))},
+			{Name: rn(top), E: gram.Alt(gram.Seq(L("n"), R(rn(top-1))), L("z"))},
+		}}
+		for i := top - 1; i >= 1; i-- {
+			g.Rules = append(g.Rules, &gram.Rule{Name: rn(i), E: gram.Alt(gram.Seq(R(rn(i+1)), L("q")), gram.Seq(L(string(letters[i-1])), R(rn(i-1))))})
+		}
+		g.Rules = append(g.Rules, &gram.Rule{Name: rn(0), E: gram.Alt(gram.Seq(R(rn(1)), L("q")), L("e"))})
+		g.Number()
+		cs := &gcase{id: len(cases), g: g}
+		down := "n"
+		for i := top - 1; i >= 1; i-- {
+			down += string(letters[i-1])
+		}
+		down += "e"
+		qs := func(n int) string { return string(bytes.Repeat([]byte("q"), n)) }
+		for _, in := range []string{"z!" + down + qs(top+1), "z!z" + qs(top+1), "z!eq", "z!ny", "z!w", "z!" + down + qs(top), "z!n" + qs(top+1), "n" + down[1:] + "!" + "eq", "z!" + down[:len(down)-1] + "z" + qs(top+1), ""} {
+			cs.entries = append(cs.entries, entry{-1, in})
+		}
+		cs.entries = append(cs.entries, recursiveEntries(r, g, 10)...)
+		cases = append(cases, cs)
+		c.run.Count("rule_ladders", 1)
+	}
 	// ranges with ordinary bounds that span the surrogate block, as -switch cases next to a larger alternative: the
 	// case keys are enumerated around U+D800-U+DFFF, the characters on both sides of the gap must still be keys
 	for _, sr := range [][4]rune{{0xD7F0, 0xE00F, 0xE010, 0xF8FF}, {0xD7FF, 0xE000, 0xE001, 0xE900}, {0x80, 0xFFFF, 0x10000, 0x10FFFF}} {
